@@ -205,11 +205,12 @@ func AddStandardFilters(fd FilterDictionary) { //nolint: gocyclo
 		if start < 0 {
 			start = len(ss) + start
 		}
-		if start < 0 {
+		if start < 0 || start >= len(ss) || n <= 0 {
+			// nothing lies in the requested window
 			return ""
 		}
 		end := start + n
-		if end > len(ss) {
+		if end > len(ss) || end < start {
 			end = len(ss)
 		}
 		return string(ss[start:end])
